@@ -189,6 +189,11 @@ def rulesets(tier):
                 grammar=[('D3', .5), ('A1D3', .3), ('D1', .2)], prince=D.PRINCE)
     types_l, base_l = R.ref_loaded(near, False, False)
     out.append(('probabilities closer than 1e-6 loaded from disk', types_l, base_l, (near, False, False)))
+    # terminal probabilities cut to four decimals (a hand-edited or rounded ruleset): they sum to 0.9998, and the later slot has fewer groups than the
+    # earlier one - a draw above the sum must still end in a group of ITS OWN slot
+    out.append(('terminal probabilities that sum to 0.9998', {'O1': [(.5, ['!']), (.3, ['#']), (.2, ['$'])], 'D1': [(.6, ['1']), (.3998, ['2'])],
+                                                             'A1': t['A1'], 'C1': t['C1']},
+                [(.6, ['O1', 'D1']), (.4, ['A1', 'C1', 'D1'])]))
     out.append(('renormalised (skip_brute style)', {'D1': t['D1'], 'O1': t['O1']}, [(.3 / .7, ['D1']), (.25 / .7, ['O1']), (.15 / .7, ['D1', 'O1'])]))
     return out
 
@@ -202,10 +207,20 @@ def bounds(tier):
             'choices': 'every index of every choice() call', 'session_N': '1..20'}
 
 
-def intervals(weights):
-    """weights: floats. Reference CDF on exact fractions, normalised. -> list of (lo, hi)"""
+SHORT = Fraction(1, 10 ** 9)
+
+
+def short_of_one(weights):
+    """how far the weights of a variable fall short of 1 when that is more than rounding (a cut or hand-edited list), else 0"""
+    gap = 1 - sum(Fraction(w) for w in weights)
+    return gap if gap > SHORT else Fraction(0)
+
+
+def intervals(weights, raw=False):
+    """weights: floats. Reference CDF on exact fractions, normalised (raw: as they are: random_walk compares a variable draw with the plain cumulative
+    sums; what lies above the last sum belongs to no group). -> list of (lo, hi)"""
     fr = [Fraction(w) for w in weights]
-    tot = sum(fr)
+    tot = Fraction(1) if raw else sum(fr)
     out = []
     acc = Fraction(0)
     for f in fr:
@@ -294,13 +309,19 @@ def _walk_one(gm, entry, acc, second):
                         acc.fail(dict(case0, draws=prefix), 'random_walk asked for a %d-th draw for a structure with %d variables' % (k + 1, len(reps_)), 'draw-count')
                         return
                     tname = reps_[k - 1]
-                    ivs = intervals([p * len(vals) for p, vals in types[tname]])
-                for v, cell, w in reps(ivs):
+                    wts = [p * len(vals) for p, vals in types[tname]]
+                    gap = short_of_one(wts)
+                    ivs = intervals(wts, raw=bool(gap))
+                rl = reps(ivs)
+                if k > 0 and gap:
+                    # a draw above the sum of a list that does not add up to 1: no group is owed it, any group OF THIS SLOT is accepted (and no crash)
+                    rl = rl[:-1] + [(float(1 - gap / 2), {-1}, gap), (TOP, {-1}, Fraction(0))]
+                for v, cell, w in rl:
                     # at the two extremes of a variable draw (0.0 and the largest double < 1) the floating-point cumulative sum may
                     # fall a rounding error short: any group is accepted there (measure 2^-53), only a crash is a failure;
                     # for the structure draw the extreme must still select a structure
                     # the group of a Markov variable is of no consequence (such a walk gives no honeyword and the session walks again): any group is accepted
-                    anycell = (k > 0 and (v in (0.0, TOP) or tname[0] == 'M'))
+                    anycell = (k > 0 and (v in (0.0, TOP) or tname[0] == 'M' or cell == {-1}))
                     explore(prefix + [v], expect + [-1 if anycell else min(cell)], meas * w if meas is not None else None)
                 return
             except Exception as e:
@@ -345,11 +366,16 @@ def _walk_one(gm, entry, acc, second):
             for idx in itertools.product(*[range(len(types[t])) for t in reps_]):
                 pt = tuple(zip(reps_, idx))
                 want = Fraction(bp) / sum(Fraction(p) for p, _ in base)
+                slack = Fraction(1, 10 ** 12)
                 for t, i in pt:
                     tot = sum(Fraction(p) * len(v) for p, v in types[t])
+                    gap = short_of_one([p * len(v) for p, v in types[t]])
+                    if gap:
+                        tot = Fraction(1)
+                        slack += gap      # the mass above the sum may land on any group of the slot
                     want *= Fraction(types[t][i][0]) * len(types[t][i][1]) / tot
                 got = measure.get((si, pt), Fraction(0))
-                if abs(got - want) > Fraction(1, 10 ** 12):
+                if abs(got - want) > slack:
                     acc.fail(dict(case0, pt=pt), '[%s] pre-terminal %r of structure %d is drawn with measure %r, its probability is %r' % (name, pt, si, float(got), float(want)), 'measure')
         # ---- Part B: honeyword expansion, every index of every choice
         for si, (bp, reps_) in enumerate(base):
